@@ -3,6 +3,7 @@
 set -e
 cd "$(dirname "$0")"
 export CARGO_NET_OFFLINE=true
+python3 gen_constants.py
 PROPS=$(ls lean/Grenad/Props/*.lean | sed 's#lean/##; s#/#.#g; s#\.lean$##' | tr '\n' ' ')
 (cd lean && lake build Grenad gmodel $PROPS Grenad.All)
 [ -f harness/Cargo.lock ] || cp /repo/Cargo.lock harness/Cargo.lock
